@@ -391,6 +391,23 @@ def check_r08d(repo, rep):
     rep.floor('runner.call result returns', len(res), 1)
 
 
+def _folds_through_convert(m, f):
+    """f is a lambda / local def whose result is a `.convert(...)` call."""
+    body = None
+    if isinstance(f, ast.Lambda):
+        body = [f.body]
+    elif isinstance(f, ast.Name):
+        for x in ast.walk(m.node):
+            if isinstance(x, ast.FunctionDef) and x.name == f.id and \
+                    x is not m.node:
+                body = [r.value for r in model.walk_shallow(x)
+                        if isinstance(r, ast.Return)]
+    if not body:
+        return False
+    return all(isinstance(b, ast.Call) and isinstance(
+        b.func, ast.Attribute) and b.func.attr == 'convert' for b in body)
+
+
 def check_r08e(repo, rep):
     """Every non-hidden converter applies the argument quota (reaches
     SmartType.convert) before handing a value on."""
@@ -426,6 +443,11 @@ def check_r08e(repo, rep):
             for c in cfgmod.node_calls(node):
                 if isinstance(c.func, ast.Attribute) and \
                         c.func.attr == 'convert':
+                    conv_nodes.append(node)
+                elif model.norm(c.func) in ('functools.reduce', 'reduce',
+                                            'map') and c.args and \
+                        _folds_through_convert(m, c.args[0]):
+                    # value threaded through every member's convert()
                     conv_nodes.append(node)
         bad = []
         for r in g.nodes:
